@@ -6,8 +6,8 @@
                             through its value, never through the ghost index or the view;
   * `readerRunG_eq_prog`    a whole call of the machine against ANY stream of load results performs the
                             accesses, returns the result and leaves the cache that `readerProg` computes;
-  * `readerRunG_steps`      and it does so within `stepBound` steps (the C18 bound);
-  * `writerRun_eq_prog`     the 4 + N (+1 with a fence) steps of `wStep` that make up one `write(rec)` append to the
+                            (for every fuel ≥ `stepBound`, the C18 bound);
+  * `writerRun_eq_prog`     the 3 + N (+1 with a fence) steps of `wStep` that make up one `write(rec)` append to the
                             log exactly the stores of `writerProg`, in that order, and return to `idle`.
   The translation tie (`CodeTieSeqlock`) targets `readerProg` / `writerProg`.
 -/
